@@ -495,6 +495,18 @@ def gen_probes(ck, quick):
             if bf:
                 add(Probe("(%s = 1) + 0" % l.c, "bin add asg %s int 1 1 - int 0 1 -" % l.d, ("D4", "asg"), noclang=True))
                 add(Probe("(0, %s) + 0" % l.c, "bin add comma int 0 1 - %s int 0 1 -" % l.d, ("D4", "comma"), noclang=True))
+    # (2b) the assignment OPERATOR with every kind of left operand against every kind of right operand
+    # (6.5.16.1: pointer <- integer / floating / incompatible pointer / qualifier loss / struct, struct <- other
+    # struct, arithmetic <- pointer / struct, ...): mostly invalid, so these are the probes of the accept/reject
+    # comparison (the type of the valid ones is compared like that of every other probe)
+    # (struct S1 has a const member, so an S1 object is no modifiable lvalue: 6.3.2.1p1 -- cproc does not check that)
+    lhs = [l for l in P if l.tag[1].startswith("p") or l.tag[0] == "union"]
+    lhs = [l for l in lhs if not l.d.startswith("var 1") and not l.d.startswith("var 4")]     # not const/volatile objects
+    arith_some = [a for a in A if a.decl and a.tag[0] != "bitfield"]
+    arith_some = arith_some[::max(1, len(arith_some) // 6)][:6]
+    for l in lhs + arith_some:
+        for r in P + arith_some + [zero, npc]:
+            add(Probe("(%s = %s)" % (l.c, r.c), "asg %s %s" % (l.d, r.d), ("asg2", l.tag[0], r.tag[0] if r.tag else "const")))
     for b in BASICS + ["void*"]:
         t = "p0 void" if b == "void*" else b
         cn = "void *" if b == "void*" else CNAME[b]
